@@ -1188,9 +1188,14 @@ func getLoginDestination(r *http.Request) string {
 		inboundLoginDestination := r.Form.Get("login_destination")
 		// Browsers treat a backslash as a slash and strip tabs and newlines
 		// from URLs: "/\\host" and "/<TAB>/host" would leave this origin.
+		// http.Redirect removes dot segments, so "/./\\host" is as bad.
+		destinationPath := inboundLoginDestination
+		if i := strings.IndexAny(destinationPath, "?#"); i >= 0 {
+			destinationPath = destinationPath[:i]
+		}
 		if strings.HasPrefix(inboundLoginDestination, "/") &&
 			!strings.HasPrefix(inboundLoginDestination, "//") &&
-			!strings.HasPrefix(inboundLoginDestination, "/\\") &&
+			!strings.Contains(destinationPath, "\\") &&
 			strings.IndexFunc(inboundLoginDestination, unicode.IsControl) < 0 {
 			loginDestination = inboundLoginDestination
 		}
